@@ -135,6 +135,45 @@ func (hr *HistRun) stepHTTP(o Op) OpResult {
 		if m := hr.API.checkWriteAnswer("l1", o, res, hs); m != "" {
 			hr.HTTPDiff = append(hr.HTTPDiff, m)
 		}
+		// C17 on the HTTP answers alone: after an accepted metadata write the listing shows it (key present with the value
+		// written / key absent after a delete), for the key exactly as the client sent it
+		if res.Class == "none" && !o.Dry && !res.Hit && (o.Kind == "setmeta" || o.Kind == "delmeta") {
+			var meta []KV
+			found := false
+			if o.IsAcc {
+				for _, a := range hs.Accounts {
+					if a.Addr == o.TgtAcc {
+						meta, found = a.Meta, true
+					}
+				}
+			} else {
+				for _, t := range hs.Txs {
+					if t.ID == o.TxID {
+						meta, found = t.Meta, true
+					}
+				}
+			}
+			get := func(k string) (string, bool) {
+				for _, kv := range meta {
+					if kv.K == k {
+						return kv.V, true
+					}
+				}
+				return "", false
+			}
+			if found && o.Kind == "delmeta" {
+				if v, ok := get(o.Key); ok {
+					hr.HTTPDiff = append(hr.HTTPDiff, fmt.Sprintf("operation %d deleted the metadata key %q of %s (answer %s) and the listing still shows %q=%q [http-meta-delete]", len(hr.Ops), o.Key, o.tgt(), res.sx(), o.Key, v))
+				}
+			}
+			if found && o.Kind == "setmeta" {
+				for _, kv := range o.Meta {
+					if v, ok := get(kv.K); !ok || v != kv.V {
+						hr.HTTPDiff = append(hr.HTTPDiff, fmt.Sprintf("operation %d wrote metadata %q=%q on %s (answer %s) and the listing shows %q present=%v [http-meta-write]", len(hr.Ops), kv.K, kv.V, o.tgt(), res.sx(), v, ok))
+					}
+				}
+			}
+		}
 		// C13 on the HTTP answers alone (no model): once a write committed under a key, the same request under that key is
 		// answered as a hit with the same transaction id (also as a dry run); another input under the key is 400 VALIDATION
 		if o.IK != "" {
